@@ -96,6 +96,131 @@ pub fn run(scenario: &str, input: &Value) -> Option<(bool, Value)> {
             }
             Some((ok, obs))
         }
+        // C18: after a process is removed, the name registered for it no longer resolves and can be registered again
+        "registry_name_lifecycle" => {
+            use edp_node::registry::ProcessRegistry;
+            use edp_node::process::ProcessHandle;
+            use erltf::types::{Atom, ExternalPid};
+            let rt = tokio::runtime::Builder::new_current_thread().enable_all().build().unwrap();
+            let (ok, obs) = rt.block_on(async {
+                let reg = ProcessRegistry::new();
+                let node = Atom::new("n@h");
+                let p1 = ExternalPid::new(node.clone(), 1, 0, 1);
+                let p2 = ExternalPid::new(node.clone(), 2, 0, 1);
+                let (tx, _rx) = tokio::sync::mpsc::channel(4);
+                reg.insert(p1.clone(), ProcessHandle::new(p1.clone(), tx.clone())).await;
+                reg.insert(p2.clone(), ProcessHandle::new(p2.clone(), tx)).await;
+                let name = Atom::new(input["name"].as_str().unwrap_or("svc"));
+                let r1 = reg.register(name.clone(), p1.clone()).await.is_ok();
+                reg.remove(&p1).await;
+                let still = reg.whereis(&name).await.is_some();
+                let again = reg.register(name.clone(), p2.clone()).await.is_ok();
+                let now = reg.whereis(&name).await == Some(p2.clone());
+                (r1 && !still && again && now, json!({"registered": r1, "resolves_after_exit": still, "can_register_again": again}))
+            });
+            Some((ok, obs))
+        }
+        // C17: calls whose request cannot be sent leave no bookkeeping behind (observed as live heap bytes)
+        "rpc_send_failure_leak" => {
+            let n = input["calls"].as_u64().unwrap_or(5000) as usize;
+            let rt = tokio::runtime::Builder::new_current_thread().enable_all().build().unwrap();
+            let (ok, obs) = rt.block_on(async move {
+                let node = edp_node::Node::new("me@127.0.0.1", "secret");
+                // a connection object that never completed a handshake: every send fails with InvalidState
+                let cfg = edp_client::ConnectionConfig::new("me@127.0.0.1", "peer@127.0.0.1", "secret");
+                node.connections().insert("peer@127.0.0.1".to_string(), std::sync::Arc::new(tokio::sync::Mutex::new(edp_client::Connection::new(cfg))));
+                // warm up allocations that are made once
+                for _ in 0..10 { let _ = node.rpc_call_raw_with_timeout("peer@127.0.0.1", "erlang", "node", vec![], std::time::Duration::from_millis(5)).await; }
+                let before = crate::alloc_probe::LIVE.load(std::sync::atomic::Ordering::Relaxed);
+                let mut errs = 0;
+                for _ in 0..n {
+                    if node.rpc_call_raw_with_timeout("peer@127.0.0.1", "erlang", "node", vec![], std::time::Duration::from_millis(5)).await.is_err() { errs += 1; }
+                }
+                let after = crate::alloc_probe::LIVE.load(std::sync::atomic::Ordering::Relaxed);
+                let grown = after.saturating_sub(before);
+                (errs == n && grown < 16 * n, json!({"failed_calls": errs, "live_bytes_growth": grown, "per_call": grown / n.max(1)}))
+            });
+            Some((ok, obs))
+        }
+        // C01: the bytes written for an integer read back, by an independent reader of the integer tags, as that integer
+        "encode_integer" => {
+            let v = i(&input["value"]);
+            let bytes = erltf::encode(&erltf::OwnedTerm::Integer(v)).ok()?;
+            let read: Option<i128> = match bytes.get(1).copied() {
+                Some(97) if bytes.len() == 3 => Some(bytes[2] as i128),
+                Some(98) if bytes.len() == 6 => Some(i32::from_be_bytes([bytes[2], bytes[3], bytes[4], bytes[5]]) as i128),
+                Some(110) if bytes.len() >= 4 && bytes.len() == 4 + bytes[2] as usize => {
+                    let mut m: i128 = 0;
+                    for (k, d) in bytes[4..].iter().enumerate() { m |= (*d as i128) << (8 * k); }
+                    Some(if bytes[3] == 0 { m } else { -m })
+                }
+                _ => None,
+            };
+            let back = erltf::decode(&bytes);
+            Some((bytes[0] == 131 && read == Some(v as i128), json!({"bytes": bytes, "independent_reader": read.map(|x| x.to_string()), "library_decode": format!("{:?}", back)})))
+        }
+        // C08: an UNLINK_ID tuple whose id is a non-negative big integer parses iff the id fits 64 bits, to that id
+        "unlink_id_term" => {
+            let n = input["n"].as_u64().unwrap() as usize;
+            let digits: Vec<u8> = input["digits"].as_array().unwrap().iter().take(n).map(|x| x.as_u64().unwrap() as u8).collect();
+            let mut v: u128 = 0;
+            for (k, d) in digits.iter().enumerate() { v |= (*d as u128) << (8 * k); }
+            let id_term = erltf::OwnedTerm::BigInt(erltf::types::BigInt::new(false, digits));
+            let t = erltf::OwnedTerm::Tuple(vec![erltf::OwnedTerm::Integer(35), id_term, erltf::OwnedTerm::Nil, erltf::OwnedTerm::Nil]);
+            let r = edp_client::control::ControlMessage::from_term(&t);
+            let ok = match &r {
+                Ok(edp_client::control::ControlMessage::UnlinkId { id, .. }) => v <= u64::MAX as u128 && *id as u128 == v,
+                Ok(_) => false,
+                Err(_) => v > u64::MAX as u128,
+            };
+            Some((ok, json!({"value": v.to_string(), "parsed": format!("{:?}", r.map(|m| m.to_term()))})))
+        }
+        // C05: frames written one after another read back as the same messages however the stream is chunked
+        "framing_stream" => {
+            use edp_client::framing::{FrameMode, MessageDeframer};
+            let dist = input["mode"].as_str().unwrap_or("distribution") == "distribution";
+            let lens: Vec<usize> = input["lens"].as_array().unwrap().iter().map(|x| x.as_u64().unwrap() as usize).collect();
+            let chunk = input.get("chunk").and_then(|v| v.as_u64()).unwrap_or(0) as usize; // 0 = everything at once
+            let mut stream = Vec::new();
+            let mut msgs = Vec::new();
+            for (k, n) in lens.iter().enumerate() {
+                let m: Vec<u8> = (0..*n).map(|j| (j as u8) ^ (k as u8).wrapping_mul(37)).collect();
+                if dist { stream.extend_from_slice(&(*n as u32).to_be_bytes()); } else { stream.extend_from_slice(&(*n as u16).to_be_bytes()); }
+                stream.extend_from_slice(&m);
+                msgs.push(m);
+            }
+            struct Chunked { data: Vec<u8>, pos: usize, chunk: usize, pend: bool }
+            impl tokio::io::AsyncRead for Chunked {
+                fn poll_read(mut self: std::pin::Pin<&mut Self>, cx: &mut std::task::Context<'_>, buf: &mut tokio::io::ReadBuf<'_>) -> std::task::Poll<std::io::Result<()>> {
+                    if self.chunk > 0 && !self.pend { self.pend = true; cx.waker().wake_by_ref(); return std::task::Poll::Pending; }
+                    self.pend = false;
+                    let left = self.data.len() - self.pos;
+                    let mut n = left.min(buf.remaining());
+                    if self.chunk > 0 { n = n.min(self.chunk); }
+                    let p = self.pos;
+                    buf.put_slice(&self.data[p..p + n]);
+                    self.pos += n;
+                    std::task::Poll::Ready(Ok(()))
+                }
+            }
+            let rt = tokio::runtime::Builder::new_current_thread().enable_all().build().unwrap();
+            let (ok, obs) = rt.block_on(async move {
+                let mut rd = Chunked { data: stream, pos: 0, chunk, pend: false };
+                let de = MessageDeframer::new(if dist { FrameMode::Distribution } else { FrameMode::Handshake });
+                let mut got_lens = Vec::new();
+                let mut ok = true;
+                for m in &msgs {
+                    match de.read_framed(&mut rd).await {
+                        Ok(v) => { got_lens.push(v.len() as i64); ok &= v == *m; }
+                        Err(_) => { got_lens.push(-1); ok = false; }
+                    }
+                }
+                // after the last frame the stream is exhausted: one more read must fail, not invent a message
+                ok &= de.read_framed(&mut rd).await.is_err();
+                (ok, json!({"read_lengths": got_lens}))
+            });
+            Some((ok, obs))
+        }
         // C09: fragments numbered N..1 (header = N, carrying the start of the data) reassemble to the original bytes
         "fragments" => {
             use edp_client::fragmentation::FragmentAssembler;
